@@ -25,6 +25,7 @@ def run(chk):
     e3.run_L2(chk)
     e3.run_I2(chk)
     e3.run_I3(chk)
+    e3.run_I4(chk)
 
 
 MUTANTS = [
